@@ -792,6 +792,7 @@ Proof.
   destruct (nth_error (s_tasks st) t) as [tk|]; [|constructor].
   destruct (negb _); [keeps_list Hs|]. destruct (w_canceled s); [keeps_list Hs|].
   destruct (is_complete (w_status s)); [keeps_list Hs|].
+  destruct (status_eqb (w_status s) PAUSED); [keeps_list Hs|].
   cbn [h_commits]. destruct (orc i t (count_execs s i t)) as [o| | | |c|c| |tg| | | |]; cbn zeta iota;
     unfold process_result, handle_exception, mark_terminal; try (keeps_list Hs; fail).
   - destruct (retry_guard a default_max_attempts); [|keeps_list Hs]. destruct c; keeps_list Hs.
@@ -870,20 +871,36 @@ Proof.
   - exact Hw.
 Qed.
 
-Lemma keeps_handle orc s r : is_jump (q_msg r) = false -> KEEPS s (handle orc s r).
+Lemma keeps_pause_task s id i t : KEEPS s (handle_pause_task s id i t).
 Proof.
-  intros Hj. unfold handle. destruct (q_msg r); try discriminate.
-  - apply keeps_start_workflow.
-  - apply keeps_complete_workflow.
-  - apply keeps_cancel_workflow.
-  - apply keeps_start_stage.
-  - apply keeps_complete_stage.
-  - apply keeps_skip_stage.
-  - apply keeps_cancel_stage.
-  - apply keeps_start_task.
-  - apply keeps_run_task.
-  - apply keeps_complete_task.
-  - apply keeps_signal_stage.
+  unfold handle_pause_task. destruct (get_stage s i) as [st|] eqn:Hs; [|constructor].
+  destruct (nth_error (s_tasks st) t) as [tk|]; [|constructor].
+  destruct (is_complete (t_status tk)); [keeps_list Hs|]. destruct (_ || _); [constructor|keeps_list Hs].
+Qed.
+
+Lemma keeps_resume_stage s id i : KEEPS s (handle_resume_stage s id i).
+Proof.
+  unfold handle_resume_stage. destruct (get_stage s i) as [st|] eqn:Hs; [|constructor].
+  destruct (negb _); [keeps_list Hs|]. cbn zeta.
+  destruct (find _ _) as [[ti tk]|]; destruct (status_eqb (w_status s) PAUSED); keeps_list Hs.
+Qed.
+
+Lemma keeps_restart_stage s id i : KEEPS s (handle_restart_stage s id i).
+Proof.
+  unfold handle_restart_stage. destruct (get_stage s i) as [st|] eqn:Hs; [|constructor].
+  destruct (w_canceled s); [keeps_list Hs|]. destruct (negb _); [keeps_list Hs|].
+  destruct (is_complete (w_status s)); keeps_list Hs.
+Qed.
+
+Definition jump_msg (m : msg) : bool := match m with MJumpToStage _ _ _ _ => true | _ => false end.
+
+Lemma keeps_handle orc s r : jump_msg (q_msg r) = false -> KEEPS s (handle orc s r).
+Proof.
+  intros Hj. unfold handle. destruct (q_msg r); try discriminate;
+    first [ apply keeps_start_workflow | apply keeps_complete_workflow | apply keeps_cancel_workflow
+          | apply keeps_start_stage | apply keeps_complete_stage | apply keeps_skip_stage | apply keeps_cancel_stage
+          | apply keeps_start_task | apply keeps_run_task | apply keeps_complete_task | apply keeps_signal_stage
+          | apply keeps_pause_task | apply keeps_resume_stage | apply keeps_restart_stage ].
 Qed.
 
 (* ------------------------------------------------------------------------------------------ *)
@@ -1037,9 +1054,9 @@ Proof.
     assert (Forall (fun c => forallb quiet c = true) tail) as Htail.
     { unfold tail. destruct (h_raised _); [constructor|]. destruct do_ack; repeat constructor. }
     rewrite firstn_app, apply_commits_app.
-    destruct (is_jump (q_msg r0)) eqn:Hj.
+    destruct (jump_msg (q_msg r0)) eqn:Hj.
     + (* a JumpToStage message *)
-      unfold handle. cbn [q_msg q_id r]. destruct (q_msg r0) as [| | | | | | | | | |j tg c o|] eqn:Hm; try discriminate.
+      unfold handle. cbn [q_msg q_id r]. destruct (q_msg r0) as [| | | | | | | | | |j tg c o| | | |] eqn:Hm; simpl in Hj; try discriminate Hj.
       rewrite pre_jump. cbn [apply_pre].
       apply budget_move_then_same with (apply_commits (firstn k (h_commits (handle_jump s1 id j tg c))) s1).
       * change (budget_move s1 (apply_commits (firstn k (h_commits (handle_jump s1 id j tg c))) s1) i).
@@ -1056,17 +1073,15 @@ Qed.
 
 Theorem step_budget orc s a i : ~ foreign_jump_into s i a -> budget_move s (step orc s a) i.
 Proof.
-  intros Hnf. destruct a; cbn [step].
+  intros Hnf. destruct a; cbn [step];
+    try (apply budget_move_same; reflexivity);
+    try (unfold recover; apply budget_move_same; [|apply maxj_commit];
+         rewrite stages_apply_commit, stages_after_quiet by apply quiet_pushes; reflexivity).
   - destruct (delivery_commits orc s id do_ack) as [d|] eqn:Hd; [|apply budget_move_refl].
     rewrite <- (firstn_all (d_rest d)). apply (delivery_budget orc s id do_ack d i _ Hd Hnf).
   - destruct k as [|k']; [apply budget_move_refl|].
     destruct (delivery_commits orc s id true) as [d|] eqn:Hd; [|apply budget_move_refl].
     apply (delivery_budget orc s id true d i _ Hd Hnf).
-  - unfold recover. apply budget_move_same; [|apply maxj_commit].
-    rewrite stages_apply_commit, stages_after_quiet by apply quiet_pushes. reflexivity.
-  - apply budget_move_same; reflexivity.
-  - apply budget_move_same; reflexivity.
-  - apply budget_move_same; reflexivity.
 Qed.
 
 (* along a run without foreign jumps into i: the number of steps that raise i's count, and the final count *)
